@@ -1,13 +1,13 @@
 CONSTANTS
   NP = 3
-  NL = 3
-  NO = 3
+  NL = 2
+  NO = 2
   MaxClock = 1000
   AgeCap = 2
   Multi = FALSE
-  LCfg <- Cfg3q
+  LCfg <- Cfg3p2l
   TokOf <- Tok3
-  Homes <- Homes3r
+  Homes <- Homes3p2l
   WaitModes = {}
   LockParts = {}
   ReqStates = {"A", "I"}
